@@ -95,7 +95,38 @@ func (a *HostileAgent) Ops(w *World, calm bool) []AgentOp {
 	if calm || a.Budget <= 0 {
 		return nil
 	}
-	return []AgentOp{{Label: "corrupt status", Weight: 3, Do: func(w *World) {
+	return []AgentOp{{Label: "odd data", Weight: 1, Do: func(w *World) {
+		// source objects whose data has a legal but unusual shape: empty, absent, nested, non-string
+		a.Budget--
+		cl := w.Mgmt
+		var cands []store.Key
+		for _, k := range sortedKeys(cl.Objs) {
+			if k.Group == "" && (k.Kind == "ConfigMap" || k.Kind == "Secret") {
+				cands = append(cands, k)
+			}
+		}
+		if len(cands) == 0 {
+			return
+		}
+		k := cands[w.Sch.Intn(len(cands), "hostile-data-target")]
+		shape := w.Sch.Intn(5, "hostile-data-shape")
+		w.Stats.Probe("hostile-data")
+		w.Tracef("HOSTILE data shape %d on %s", shape, k)
+		_, _ = w.TP("hostile", cl).Mutate(k, func(o store.Obj) {
+			switch shape {
+			case 0:
+				o["data"] = map[string]any{}
+			case 1:
+				delete(o, "data")
+			case 2:
+				o["data"] = map[string]any{"k": map[string]any{"deeper": []any{}}}
+			case 3:
+				o["data"] = map[string]any{"k": nil, "list": []any{}}
+			case 4:
+				o["data"] = []any{}
+			}
+		})
+	}}, {Label: "corrupt status", Weight: 3, Do: func(w *World) {
 		a.Budget--
 		cl := w.Mgmt
 		var cands []store.Key
